@@ -146,6 +146,21 @@ def replay(args):
         if got[0] == "ok" and ev["op"] == "apply" and np.shares_memory(got[1], arrays[a]):
             return {"sig": None, "step": k, "kind": kind, "op": ev["op"], "array": a, "value": v, "batch": ev["batch"],
                     "what": "the result shares memory with the array that was passed: editing either changes the other"}
+    # no points at all is a legal input: the answer is no points, whatever the batch size
+    try:
+        e0 = np.asarray(t.apply(np.zeros((0, 2))))
+        for b in (1, 3):
+            eb = np.asarray(t.apply(np.zeros((0, 2)), batch_size=b))
+            if eb.shape != e0.shape:
+                return {"sig": None, "kind": kind, "batch": b, "what": "apply on an empty (0, 2) array gives shape %r with batch_size=%d and %r without" % (eb.shape, b, e0.shape)}
+        if e0.shape[0] != 0:
+            return {"sig": None, "kind": kind, "what": "apply on an empty array returned %d points" % e0.shape[0]}
+    except Exception as ex:
+        from ..core import from_library
+
+        if not from_library(ex):
+            raise
+        return {"sig": None, "kind": kind, "what": "apply on an empty (0, 2) array raised %s: %s" % (type(ex).__name__, str(ex)[:120])}
     # epilogue on the SAME object (whatever the history left in it): the value, not its number type or the batch size, decides
     if kind not in _WHOLE_REF:
         _WHOLE_REF[kind] = np.asarray(make(kind).apply(WHOLE.astype(float)), dtype=float)
